@@ -110,6 +110,18 @@ def doc_scenarios(tier, seed):
     fine = {"type": "custom", "kw": {"dz": [0.1] * 12}, "layers": [[0.5, 0.1234, 0.2617, 0.4321, 300.0, 100], [0.7, 0.2046, 0.3551, 0.4879, 80.0, 100]]}
     for iw in ({"wc_type": "Pct", "value": [35, 65], "depth_layer": [1, 2]}, {"wc_type": "Pct", "method": "Depth", "depth_layer": [0.25, 1.0], "value": [70, 45]}):
         scs.append(S("Tomato", seed=1, soil_spec=fine, iwc=iw))
+    # depth points exactly ON the interface between two layers (the value of a point belongs to the layer that begins there)
+    for key in ("two_layer", "three_layer", "clay_over_sand"):
+        spec = L.LAYERED_SOILS[key]
+        bounds, tot = [], 0.0
+        for lay in spec["layers"][:-1]:
+            tot = round(tot + lay[0], 2)
+            bounds.append(tot)
+        pts = [0.1] + bounds
+        for typ, vals in (("Prop", (["FC", "WP", "SAT", "FC"])[:len(pts)]), ("Pct", [80, 30, 60, 45][:len(pts)])):
+            scs.append(S("Tomato", seed=1, soil_spec=spec, iwc={"wc_type": typ, "method": "Depth", "depth_layer": pts, "value": list(vals)}))
+    scs.append(S("Wheat", "Paddy", seed=1, iwc={"wc_type": "Prop", "method": "Depth", "depth_layer": [0.2, 0.5], "value": ["WP", "FC"]}))
+    scs.append(S("Wheat", "ac_TunisLocal", seed=1, iwc={"wc_type": "Prop", "method": "Depth", "depth_layer": [0.3, 1.0], "value": ["FC", "WP"]}))
     # compartments thinner than 5 cm that have to be thickened three times for a deep-rooting crop
     scs.append(S("Maize", seed=1, soil_spec={"type": "SandyLoam", "kw": {"dz": [0.04] * 8}}))
     scs.append(S("Wheat", seed=1, soil_spec={"type": "Loam", "kw": {"dz": [0.03] * 6 + [0.1] * 2}}))
